@@ -40,7 +40,7 @@ def library_crash(log):
     blk = log[m.start():]
     g = blk.find('goroutine ')
     stack = blk[g:].split('\n\n')[0] if g >= 0 else blk
-    return '/repo/' in stack or 'fatal error: ' in blk[:200]
+    return (C.REPO + '/') in stack or 'fatal error: ' in blk[:200]
 
 def finish(prop, tier, seed, t0, level, states, results, crashes, violations, rule, samples, extra=None, exhaustive=True, trusted=()):
     evals = sum(r.get('evaluations', 0) for r in results)
